@@ -126,9 +126,11 @@ package kvql
 //@     invariant 0 <= i && i <= len(args) && len(ret) == len(args) && fresh(ret)
 //@     invariant 0 <= k && k < i && is(av(args, k, kv), float64) ==> ret[k] == fltof(av(args, k, kv))
 //
-// join(sep, ...) row form: frame and cache coherence only (strings.Join is not modelled).
+// join(sep, a, b, ...) row form: the renderings (toString) of a, b, ... joined by the rendering of
+// sep (strings.Join: T-STD, joinN); the per-row cache stays coherent.
 //@ func funcJoin(kv KVPair, args []Expression, ctx *ExecuteCtx) (ret any, err error)
-//@   props C05
+//@   props C05 C10
+//@   ensures[C10] value: err == nil ==> isstr(ret) && textOf(ret) == joined(local(vals), val(toString(av(args, 0, kv)))) && len(local(vals)) == len(args) - 1 && (forall q Int :: 0 <= q && q < len(args) - 1 ==> aok(args, q + 1, kv) && val(local(vals)[q]) == val(toString(av(args, q + 1, kv))))
 //@   requires len(args) >= 1 && (forall i Int :: 0 <= i && i < len(args) ==> args[i] != nil)
 //@   requires[C05] coherent: coherent(ctx, val(kv.Key), val(kv.Value)) && wfCtx(ctx) && wfRefs()
 //@   ensures[C05] coherent: coherent(ctx, val(kv.Key), val(kv.Value))
@@ -136,6 +138,7 @@ package kvql
 //@   loop 0
 //@     invariant[C05] coherent: coherent(ctx, val(kv.Key), val(kv.Value))
 //@     invariant fresh(vals) && len(vals) == len(args) - 1
+//@     invariant[C10] sofar: aok(args, 0, kv) && rseparator == av(args, 0, kv) && (forall q Int :: 0 <= q && q <= rangeindex ==> aok(args, q + 1, kv) && val(vals[q]) == val(toString(av(args, q + 1, kv))))
 //@     use rangeindex + 2
 //
 // The vector forms of join / int_list / float_list evaluate one row at a time; the per-row cache of
